@@ -461,6 +461,8 @@ def origins(n, env, adapters=ADAPTERS, extra=None, depth=0, seen=None, sel=(), a
         for e in n["es"]:
             out |= rec(e, ())
         return out
+    if k == "repeat":
+        return rec(n["e"], ())
     if k == "index":
         return rec(n["base"])
     if k == "binary":
